@@ -18,7 +18,8 @@ THEOREMS = ["Rsp.Tie.C17.lockExprs_classified", "Rsp.Tie.C17.newrqref_protocol",
             "Rsp.Props.C17.writerSlot_inv", "Rsp.Props.C17.writerScan_inv", "Rsp.Props.C17.newrequest_inv", "Rsp.Props.C17.writerPass_good",
             "Rsp.Props.C17.writerOp_good", "Rsp.Props.C17.step_good", "Rsp.Props.C17.initial_good", "Rsp.Props.C17.initialOk_sound",
             "Rsp.Props.C17.udpRecv_good", "Rsp.Props.C17.tcpConn_good", "Rsp.Props.C17.history_good", "Rsp.Props.C17.history_counts", "Rsp.Props.C17.history_rmclient_clears",
-            "Rsp.Props.C17.rmserver_good", "Rsp.Props.C17.history_rmserver_clears", "Rsp.Props.C17.gone_not_routed"]
+            "Rsp.Props.C17.rmserver_good", "Rsp.Props.C17.history_rmserver_clears", "Rsp.Props.C17.gone_not_routed",
+            "Rsp.Props.C17.streamConnect_good", "Rsp.Props.C17.clientRd_good", "Rsp.Props.C17.srvConn_good"]
 RULE = ("histories over {request, retransmission, identifier reuse, reply, bogus reply, writer timer step, clock advance, connection reset, client disconnect, server removal} on 2-4 "
         "associations and 1-3 servers, closed by disconnecting every client and running all timers out; after EVERY operation the real objects' reference counts are compared "
         "with the number of slots/cache entries/queue entries pointing at them; the mutex pairs (held, acquired) exhibited by the real code are checked against the ranked "
@@ -125,7 +126,8 @@ def build_refs(exe, rng, idx):
 def gen_run(exe, rng, tier):
     # … and whole TCP connections (association created, requests outstanding, connection gone: everything it held is released)
     return (WH.run_parallel(exe, rng, 200 if tier == "quick" else 5000, build_refs) +
-            WH.run_parallel(exe, rng, 40 if tier == "quick" else 1500, WH.tcp_history))
+            WH.run_parallel(exe, rng, 40 if tier == "quick" else 1500, WH.tcp_history) +
+            WH.run_parallel(exe, rng, 40 if tier == "quick" else 1000, WH.srvconn_history))
 
 
 def gen(rng, tier):
